@@ -100,11 +100,16 @@ func (s *socket) SendMsg(m *protocol.Message) error {
 	} else if s.sendExpire > 0 {
 		tq = time.After(s.sendExpire)
 	}
+	closeQ := s.closeQ
 	s.Unlock()
 
 	select {
 	case p.sendQ <- m:
 		return nil
+	case <-closeQ:
+		// restore the header
+		m.Header = hdr
+		return protocol.ErrClosed
 	case <-p.closeQ:
 		m.Free()
 		return nil // No way to return the message
